@@ -91,7 +91,12 @@ def gen_project(rng):
                 feats.add("clean")
             except Exception:
                 pass
-        files[f"test_f{fi}.py"] = src
+        # both of pytest's default test-file patterns (test_*.py and *_test.py)
+        if rng.random() < 0.3:
+            files[f"f{fi}_test.py"] = src
+            feats.add("suffix-test-file")
+        else:
+            files[f"test_f{fi}.py"] = src
     if rng.random() < 0.3:
         ll = rng.choice([30, 60, 100])
         files["pyproject.toml"] = f"[tool.black]\nline-length = {ll}\n"
